@@ -19,11 +19,11 @@
 #define NS (CS_MAXP * CS_MAXP)
 
 enum { F_TRL, F_UTHROUGH, F_TRLM, F_UREFLECT1, F_UREFLECT2, F_CORR,
-    F_PARTIAL16, F_TRLX, F_NFAM };
+    F_PARTIAL16, F_TRLX, F_RECT, F_NFAM };
 static const char *fname[F_NFAM] = { "TRL(analytic)", "unknown-through",
     "TRL+match(LM)", "unknown-reflect-1port", "unknown-reflects-2port",
     "correlated-repeat", "unknown+single-reflect-16term",
-    "TRL-with-mismatched-line" };
+    "TRL-with-mismatched-line", "unknown-line-rectangular" };
 
 static const vnacal_type_t types[8] = {
     VNACAL_T8, VNACAL_U8, VNACAL_TE10, VNACAL_UE10,
@@ -140,6 +140,12 @@ static int build(cs_scenario *sc, int fam, vnacal_type_t type, int net,
     int pm, po, ps;
 
     memset(sc, 0, sizeof(*sc));
+    if (fam == F_RECT) {
+	/* one measured row (T types) or one driven column (U types) */
+	bool tt = type == VNACAL_T8 || type == VNACAL_TE10 ||
+	    type == VNACAL_T16;
+	cs_make_vna(&sc->vna, type, tt ? 1 : 2, tt ? 2 : 1, nf, net);
+    } else
     cs_make_vna(&sc->vna, type, P, P, nf, net);
     pm = par_predef(sc, VNACAL_MATCH);
     po = par_predef(sc, VNACAL_OPEN);
@@ -263,6 +269,27 @@ static int build(cs_scenario *sc, int fam, vnacal_type_t type, int net,
 	unk[(*nunk)++] = U;
 	unk[(*nunk)++] = C1;
 	unk[(*nunk)++] = C2;
+	break;
+    }
+    case F_RECT: {
+	/* port 1 fully characterised, a through and a known line, then a
+	   matched line of unknown transmission: the unknown sits in both
+	   rows of the standard's S matrix, the calibration has one */
+	int L = par_unknown(sc, Ltrue, -0.05 * I * Ltrue, guess);
+	int r[3] = { ps, po, pm };
+	int a = par_scalar(sc, 0.10 + 0.05 * I);
+	int b = par_scalar(sc, 0.35 - 0.606 * I);
+	int c = par_scalar(sc, 0.33 - 0.58 * I);
+	int d = par_scalar(sc, -0.08 + 0.10 * I);
+	int ln[4] = { a, b, c, d };
+	int ll[4] = { -1, L, L, -1 };
+	(void)Rtrue;
+	for (int k = 0; k < 3; ++k)
+	    std_push(sc, CSE_SINGLE, 1, 1, 0, &r[k]);
+	std_push(sc, CSE_THROUGH, 2, 1, 2, NULL);
+	std_push(sc, CSE_LINE, 2, 1, 2, ln);
+	std_push(sc, CSE_LINE, 2, 1, 2, ll);
+	unk[(*nunk)++] = L;
 	break;
     }
     case F_PARTIAL16: {
